@@ -25,7 +25,10 @@ RowData(im, row) == [q \in 1..BytesPerLine(im) |-> Sample(im, row * BytesPerLine
 Blob(im) == [q \in 1..DataLen(im) |-> Sample(im, q - 1)]
 
 \* ------------------------------------------------------------------ export_image: the decision tree
-Lossless == {"Flate", "LZW", "A85", "AHx", "RL", "FlatePNG"}       \* FlatePNG: FlateDecode with a PNG predictor (DecodeParms)
+\* FlatePNG / FlateTIFF / LZWPNG / LZWTIFF: the two filters that take DecodeParms, with a PNG (10..15) or TIFF (2) predictor
+PredictorFilters == {"FlatePNG", "FlateTIFF", "LZWPNG", "LZWTIFF"}
+FlateFamily == {"Flate", "FlatePNG", "FlateTIFF"}
+Lossless == {"Flate", "LZW", "A85", "AHx", "RL"} \cup PredictorFilters
 LastFilter(im) == IF im.filters = <<>> THEN "none" ELSE im.filters[Len(im.filters)]
 HasJBIG2(im) == \E q \in 1..Len(im.filters) : im.filters[q] = "JBIG2"
 Decide(im, dv) ==
@@ -36,7 +39,7 @@ Decide(im, dv) ==
   ELSE IF im.bits = 1 THEN "bmp"
   ELSE IF im.bits = 8 /\ im.cs = "RGB" THEN "bmp"
   ELSE IF im.bits = 8 /\ im.cs = "G" THEN "bmp"
-  ELSE IF Len(im.filters) = 1 /\ im.filters[1] \in {"Flate", "FlatePNG"} THEN "bytes"
+  ELSE IF Len(im.filters) = 1 /\ im.filters[1] \in FlateFamily THEN "bytes"
   ELSE "raw"
 Ext(im, d) == CASE d = "jpeg" -> ".jpg" [] d = "jp2" -> ".jp2" [] d = "jbig2" -> ".jb2" [] d = "bmp" -> ".bmp" [] d = "bytes" -> ".jpg"
                 [] d = "raw" -> "." \o ToString(im.bits) \o "." \o ToString(im.w) \o "x" \o ToString(im.h) \o ".img"
